@@ -17,6 +17,8 @@ import (
 	"os/exec"
 	"sort"
 	"strings"
+	"sync"
+	"time"
 
 	"github.com/bartventer/httpcache/store"
 	"github.com/bartventer/httpcache/store/driver"
@@ -42,6 +44,9 @@ type KVVal struct {
 type KVOp struct {
 	Op  string `json:"op"` // set get del keys reopen tamper api_get api_del api_list reopen_wrongkey reopen_plain set_cut set_kill open_enc
 	Cut int    `json:"cut"` // set_cut: the file size limit in bytes; set_kill: the step at which the writer kills itself (-1: random instant)
+	Sched []SchedStep `json:"sched"` // sched: the schedule to replay; writer i sets value i-1
+	Reads []int       `json:"reads"` // sched: what the model says each reader gets (0 = absent, i = writer i's value)
+	N     int         `json:"n"`     // stress: number of writers / readers; duration in ms is Cut
 	K   int    `json:"k"`
 	V   int    `json:"v"`
 	P   int    `json:"p"`   // keys: key id whose bytes are the prefix (-1: empty prefix)
@@ -440,6 +445,113 @@ func RunKV(sc *KVScenario, log *EventLog, workDir string) error {
 					ev["plain"] = 1 // nothing written at all is not "stored encrypted" either
 				}
 			}
+		case "sched":
+			// one FsAtomic schedule replayed by gating the processes at the step hooks
+			values := map[int][]byte{}
+			for i := range r.vals {
+				values[i+1] = r.vals[i]
+			}
+			reads, nxs, errs, final, finalNX := runSchedule(r.conn, string(r.keys[op.K]), values, op.Sched)
+			torn, unk, diff := 0, 0, 0
+			got := []int{}
+			for ri := 1; ri <= len(op.Reads); ri++ {
+				g := -9
+				if nxs[ri] {
+					g = 0
+				} else if b, ok := reads[ri]; ok {
+					id, t := r.identify(b)
+					torn += t
+					if id < 0 {
+						unk++
+					}
+					g = id + 1
+				}
+				got = append(got, g)
+				if g != op.Reads[ri-1] {
+					diff++
+				}
+			}
+			if !finalNX {
+				id, t := r.identify(final)
+				torn += t
+				if id < 0 {
+					unk++
+				}
+			}
+			ev["ok"] = b2i(len(errs) == 0)
+			ev["torn"], ev["unknown"], ev["keys"], ev["st"] = torn, unk, got, diff
+			if len(errs) > 0 {
+				ev["errs"] = strings.Join(errs, "; ")
+			}
+		case "stress":
+			// free-running writers alternating two values, readers and a deleter on one key
+			key := string(r.keys[op.K])
+			stop := make(chan struct{})
+			var wg sync.WaitGroup
+			var mu sync.Mutex
+			gets, torn, unk, gerr, serr := 0, 0, 0, 0, 0
+			for wi := 0; wi < op.N; wi++ {
+				wg.Add(1)
+				go func(wi int) {
+					defer wg.Done()
+					for j := 0; ; j++ {
+						select {
+						case <-stop:
+							return
+						default:
+						}
+						if err := r.conn.Set(key, append([]byte(nil), r.vals[(wi+j)%len(r.vals)]...)); err != nil {
+							mu.Lock()
+							serr++
+							mu.Unlock()
+						}
+					}
+				}(wi)
+				wg.Add(1)
+				go func() {
+					defer wg.Done()
+					for {
+						select {
+						case <-stop:
+							return
+						default:
+						}
+						b, err := r.conn.Get(key)
+						mu.Lock()
+						gets++
+						if err == nil {
+							id, t := r.identify(b)
+							torn += t
+							if id < 0 && t == 0 {
+								unk++
+							}
+						} else if !errors.Is(err, driver.ErrNotExist) {
+							gerr++
+						}
+						mu.Unlock()
+					}
+				}()
+			}
+			if op.P == 1 {
+				wg.Add(1)
+				go func() {
+					defer wg.Done()
+					for {
+						select {
+						case <-stop:
+							return
+						default:
+						}
+						_ = r.conn.Delete(key)
+						time.Sleep(200 * time.Microsecond)
+					}
+				}()
+			}
+			time.Sleep(time.Duration(op.Cut) * time.Millisecond)
+			close(stop)
+			wg.Wait()
+			ev["ok"] = b2i(serr == 0)
+			ev["torn"], ev["unknown"], ev["st"], ev["rv"] = torn, unk, gerr, gets
 		case "api_list":
 			prefix := ""
 			if op.P >= 0 {
